@@ -272,46 +272,48 @@ func TestVerifC12_FishModel(t *testing.T) {
 }
 
 // Re-quoting of arguments and environment used to re-launch fzf inside tmux.
-func TestVerifC12_TmuxRequote(t *testing.T) {
+func propC12TmuxRequote(t *rapid.T) {
 	work := os.Getenv("VERIF_WORK")
 	if work == "" {
 		work = os.TempDir()
 	}
 	dir := filepath.Join(work, "c12-cwd2")
 	os.MkdirAll(dir, 0o755)
-	rapid.Check(t, func(t *rapid.T) {
-		n := rapid.IntRange(1, 5).Draw(t, "nargs")
-		var args []string
-		for i := 0; i < n; i++ {
-			args = append(args, c12Text(t, "arg"))
+	n := rapid.IntRange(1, 5).Draw(t, "nargs")
+	var args []string
+	for i := 0; i < n; i++ {
+		args = append(args, c12Text(t, "arg"))
+	}
+	nenv := rapid.IntRange(0, 3).Draw(t, "nenv")
+	script := ""
+	var want []string
+	for i := 0; i < nenv; i++ {
+		v := c12Text(t, "envval")
+		script += fmt.Sprintf("export V%d=%s\n", i, escapeSingleQuote(v))
+		want = append(want, v)
+	}
+	script += "printf '%s\\0'"
+	for i := 0; i < nenv; i++ {
+		script += fmt.Sprintf(" \"$V%d\"", i)
+	}
+	for _, a := range args {
+		script += " " + escapeSingleQuote(a)
+		want = append(want, a)
+	}
+	hostile := strings.ContainsAny(strings.Join(want, ""), "'\\\n$`")
+	vstat.Case("C12/tmux-requote", fmt.Sprintf("%q", want), hostile, fmt.Sprintf("nenv=%d", nenv))
+	os.Remove(filepath.Join(dir, "CANARY"))
+	for _, sh := range []string{"/bin/sh", "/bin/bash"} {
+		got := runShellWords(t, sh, script, dir)
+		if strings.Join(got, "\x01") != strings.Join(want, "\x01") || len(got) != len(want) {
+			t.Fatalf("%s: script %q\n got  %q\n want %q", sh, script, got, want)
 		}
-		nenv := rapid.IntRange(0, 3).Draw(t, "nenv")
-		script := ""
-		var want []string
-		for i := 0; i < nenv; i++ {
-			v := c12Text(t, "envval")
-			script += fmt.Sprintf("export V%d=%s\n", i, escapeSingleQuote(v))
-			want = append(want, v)
+		if _, err := os.Stat(filepath.Join(dir, "CANARY")); err == nil {
+			t.Fatalf("%s executed data as shell syntax: script %q", sh, script)
 		}
-		script += "printf '%s\\0'"
-		for i := 0; i < nenv; i++ {
-			script += fmt.Sprintf(" \"$V%d\"", i)
-		}
-		for _, a := range args {
-			script += " " + escapeSingleQuote(a)
-			want = append(want, a)
-		}
-		hostile := strings.ContainsAny(strings.Join(want, ""), "'\\\n$`")
-		vstat.Case("C12/tmux-requote", fmt.Sprintf("%q", want), hostile, fmt.Sprintf("nenv=%d", nenv))
-		os.Remove(filepath.Join(dir, "CANARY"))
-		for _, sh := range []string{"/bin/sh", "/bin/bash"} {
-			got := runShellWords(t, sh, script, dir)
-			if strings.Join(got, "\x01") != strings.Join(want, "\x01") || len(got) != len(want) {
-				t.Fatalf("%s: script %q\n got  %q\n want %q", sh, script, got, want)
-			}
-			if _, err := os.Stat(filepath.Join(dir, "CANARY")); err == nil {
-				t.Fatalf("%s executed data as shell syntax: script %q", sh, script)
-			}
-		}
-	})
+	}
+}
+
+func TestVerifC12_TmuxRequote(t *testing.T) {
+	rapid.Check(t, propC12TmuxRequote)
 }
